@@ -7,9 +7,9 @@ EXPLANATION = (
     "Document/Styles/Content get_style(s), _get_style_contexts, Element.get_style(s), make_xpath_query on the lxml model; a Document whose styles.xml and content.xml "
     "parts are real Styles/Content objects over small trees with the four style containers. Symbolic style names (the solver decides whether two names coincide) and "
     "automatic flag; family concrete per obligation. Oracle: container required by family/flags (table from the ODF schema), at most one style per (tag, family, name) "
-    "per container, lookup by the returned name yields exactly the inserted node, generated automatic names never collide. "
+    "per container, lookup by the returned name yields exactly the inserted node, generated automatic names never collide. merge_styles_from on two real documents over the in-memory container: the other document is left unchanged, the result is the union with the definitions of the other document winning (named, default, master-page, page-layout, font-face styles, a draw:marker, the same name in different containers of styles.xml), nothing duplicated. "
 )
-OUTSIDE = ("the four real templates and sample documents, save/reload, delete_styles, merge_styles_from with images referenced from styles (binary parts and manifest copying), merges of documents with more than two or three styles, set_table_displayed, "
+OUTSIDE = ("the four real templates and sample documents, save/reload, delete_styles, merges of documents with more than two or three styles (pictures referred to by merged styles: see C04 merge_images), set_table_displayed, "
            "add_page_break_style, names longer than 2 characters, families other than the six listed")
 ASSUMPTIONS = ["names of 1..2 characters over {a, b}"]
 TRUSTED = _T
